@@ -93,7 +93,15 @@ def rule_zip(ctx):
             b = flow.origins(op_root(t["args"][1]), tuple(place_fields(t["args"][1]["pl"])) if t["args"][1].get("pl") else ())
             same = bool(a) and a == b
             guarded = any(fn.dominates(g, bi) and g != bi for g, _ in guards)
-            inst = [gb for gb, gt in fn.calls() if gt.get("callee_name") == "is_instance" and fn.dominates(gb, bi)]
+            # a preceding call of a front-end function that itself compares two lengths and rejects a mismatch (is_instance on the pinned tree)
+            def _guarding_callee(gt):
+                kk = gt.get("resolved_key") or (gt.get("callee_key") if not gt.get("callee_trait") else None)
+                if gt.get("callee_name") == "is_instance":
+                    return True
+                if kk in fx.fns and fx.fns[kk]["crate"] == "fun" and "{closure" not in kk and kk != k:
+                    return bool(_len_guards(Fn(fx.fns[kk])))
+                return False
+            inst = [gb for gb, gt in fn.calls() if fn.dominates(gb, bi) and gb != bi and _guarding_callee(gt)]
             # is_instance's result must be propagated with `?` (its Err aborts before the zip)
             inst_q = False
             for gb in inst:
@@ -113,7 +121,10 @@ def rule_zip(ctx):
                             g2 = _len_guards(fn2)
                             ok2 = any(fn2.dominates(g, b2) and g != b2 for g, _ in g2)
                             for gb, gt in fn2.calls():
-                                if gt.get("callee_name") in ("is_instance", "check_template", "check") and "types::" in (gt.get("callee_key") or "") and fn2.dominates(gb, b2) and gb != b2:
+                                kk_ = gt.get("resolved_key") or (gt.get("callee_key") if not gt.get("callee_trait") else None)
+                                if fn2.dominates(gb, b2) and gb != b2 and (
+                                        (gt.get("callee_name") in ("is_instance", "check_template", "check") and "types::" in (gt.get("callee_key") or "")) or
+                                        (kk_ in fx.fns and fx.fns[kk_]["crate"] == "fun" and "{closure" not in kk_ and bool(_len_guards(Fn(fx.fns[kk_]))))):
                                     ok2 = True
                             sites.append(ok2)
                 caller_guard = bool(sites) and all(sites)
@@ -146,7 +157,7 @@ def rule_dup(ctx):
     cg = callgraph.get(ctx)
     entry = "fun::typing::symbol_table::build_symbol_table"
     fx.fn(entry)
-    zone = set(cg.reachable([entry], crates={"fun"}))
+    zone = set(cg.reachable([fx.fn(entry)["key"]], crates={"fun"}))
     for k in sorted(zone):
         f = fx.fns[k]
         if "{promoted" in k:
@@ -208,8 +219,7 @@ def rule_nodup(ctx):
         ("fun::syntax::declarations::def::Def::check", "no_dups"),
         ("<fun::syntax::terms::case::Case as fun::typing::check::Check>::check", "no_dups"),
         ("<fun::syntax::terms::new::New as fun::typing::check::Check>::check", "no_dups"),
-        ("fun::typing::symbol_table::build_symbol_table", "check_type_params"),
-        ("fun::typing::symbol_table::SymbolTable::check_type_params", "no_dups"),
+        ("fun::typing::symbol_table::build_symbol_table", "no_dups"),       # through check_type_params on the pinned tree
     ]
     fns = {}
 
@@ -652,9 +662,38 @@ def rule_instance(ctx):
     n = 0
     memo = {}
 
+    # functions that create instances, by what they do: they insert into the `types` table of the symbol table, or call such a
+    # function (three levels) - the names above are what they are called on the pinned tree
+    creators = set()
+    for k0, f0 in fx.fns.items():
+        if f0["crate"] != "fun" or "{promoted" in k0:
+            continue
+        fn0 = None
+        for b0 in f0["blocks"]:
+            t0 = b0["term"]
+            if t0["k"] == "call" and t0.get("callee_name") == "insert" and (t0.get("callee_self_adt") or "").endswith("HashMap") and t0["args"]:
+                fn0 = fn0 or Fn(f0)
+                r0 = op_root(t0["args"][0])
+                if r0 is not None and any(o[0] == "arg" and "types" in o[2] for o in Flow(fn0).origins(r0, ())):
+                    creators.add(k0.split("::{closure")[0])
+    for _ in range(3):
+        more = set()
+        for k0, f0 in fx.fns.items():
+            if f0["crate"] != "fun" or "{promoted" in k0 or k0.split("::{closure")[0] in creators:
+                continue
+            if (f0.get("impl_trait") or "").endswith("typing::check::Check") or k0.endswith(("::build", "::combine")) or "build_symbol_table" in k0:
+                continue
+            for b0 in f0["blocks"]:
+                t0 = b0["term"]
+                if t0["k"] == "call" and (t0.get("resolved_key") or t0.get("callee_key")) in creators:
+                    more.add(k0.split("::{closure")[0])
+        creators |= more
+
     def is_inst_call(t):
         nm = t.get("callee_name")
         ck = t.get("callee_key") or ""
+        if (t.get("resolved_key") or ck) in creators:
+            return True
         return (nm in INST and ck.startswith("fun::")) or (nm == "check" and "types::Ty::check" in ck)
 
     def closure_instantiates(fn, local, depth=0):
@@ -762,7 +801,9 @@ def rule_instance(ctx):
                                 continue
                             seen.add(x)
                             tx = f["blocks"][x]["term"]
-                            if tx["k"] == "call" and tx.get("callee_name") in ("lookup_ty_template_for_ctor", "lookup_ty_template_for_dtor"):
+                            if tx["k"] == "call" and (tx.get("callee_name") in ("lookup_ty_template_for_ctor", "lookup_ty_template_for_dtor")
+                                                      or ((tx.get("resolved_key") or tx.get("callee_key")) in creators
+                                                          and tx.get("callee_name") not in ("check_equality", "check_args", "check"))):
                                 idiom.add(bi)
                                 break
                             if tx["k"] in ("return",) or len(seen) > 6:
@@ -806,7 +847,7 @@ def rule_instance(ctx):
         analyse(k, 0)
     for k in sorted(memo):
         # the functions that implement the tables themselves are not clients of them
-        if k.split("::")[-1] in INST | ACCESS | {"build", "combine"}:
+        if k.split("::")[-1] in INST | ACCESS | {"build", "combine"} or k in creators:
             continue
         for ikey, t, desc, verdict in memo[k][0]:
             n += 1
